@@ -1,22 +1,27 @@
 (* drv_io.ml -- line-protocol driver of the extracted read/write model (C01, C03).
-   rw <chunks: hex,hex,...|-> <b> <e> <old hex|->   (same request as harness/probe_io.c)
+   rw <chunks: hex,hex,...|-> <b> <e> <old hex|-> [<pos> <chunks2>]   (same request as harness/probe_io.c)
      -> n=<lines> file=<hex> text=<hex> cap=<1 if ln_n < ln_sz> pay=<payload sizes> sz=<n>
    sbuf <len,len,...>  -> n=<s_n> room=<1 if s_n + 1 <= s_sz>   (sizes logged, not compared) *)
 let pr = Printf.printf
 let split_on c s = if s = "-" || s = "" then [] else String.split_on_char c s
 let zlt a b = int_of_z a < int_of_z b
 
-let do_rw chunks b e old =
+let do_rw chunks b e old second =
   let cs = List.map bytes_of_hex (split_on ',' chunks) in
   let b = int_of_string b and e = int_of_string e in
-  match lbuf_rd lbuf_make cs O O with
+  let lb1 = match lbuf_rd lbuf_make cs O O, second with
+    | Some lb, Some (pos, c2) ->
+      let p = nat_of_int (int_of_string pos) in
+      lbuf_rd lb (List.map bytes_of_hex (split_on ',' c2)) p p
+    | r, _ -> r in
+  match lb1 with
   | None -> pr "outoffuel\n"
   | Some lb ->
     let lines = ln lb in
     let n = List.length lines in
     let e = if e < 0 then n else e in
     let w = lbuf_wr lines (nat_of_int b) (nat_of_int e) in
-    let file = save_file lines (nat_of_int b) (nat_of_int e) (bytes_of_hex old) in
+    let file = save_file lines (nat_of_int b) (nat_of_int e) (if old = "absent" then [] else bytes_of_hex old) in
     pr "n=%d file=%s text=%s cap=%d ovf=%b pay=%s sz=%d lnsz=%d\n" n (hex_of_bytes file)
       (hex_of_bytes (List.concat lines))
       (if n < int_of_z (ln_sz lb) then 1 else 0) (ovf w)
@@ -34,7 +39,8 @@ let do_sbuf lens =
 let () =
   iter_lines (fun l ->
     (match words l with
-    | ["rw"; chunks; b; e; old] -> do_rw chunks b e old
+    | ["rw"; chunks; b; e; old] -> do_rw chunks b e old None
+    | ["rw"; chunks; b; e; old; pos; c2] -> do_rw chunks b e old (Some (pos, c2))
     | ["sbuf"; lens] -> do_sbuf lens
     | _ -> pr "?\n");
     flush stdout)
